@@ -27,6 +27,16 @@ claim("C05", "exploration", SIM + "; notification predicate vs vring_need_event,
       "should_notify is compared with the specification predicate after batches of up to SIZE submissions including across the 16-bit wrap; avail.flags/used_event are read from the device side; blocking helpers run against notify-only / polling / delaying devices with a supervisor that turns a wait that can never end into a violation.",
       "Liveness bound of 4 idle device opportunities; interrupts are not asynchronous control flow (library installs no handlers).", "6/C05")
 
+claim("C06", "exploration", SIM + "; configuration grid enumerated completely inside the simulated world, seam-history oracle",
+      "All 1280 cells of sizes x layout x flags x transport answers are visited in every round; the queue_set arguments, DMA ledger and ring contents are checked against the specification's layout rules; release is checked on drop and on second-allocation failure.",
+      "Grid is exhaustive, DMA placement/queue index/failure injection are sampled; model transport only (real transports in C10/C11).", "6/C06")
+claim("C10", "exploration", SIM + "; register-level reference device behind the MMIO seam, per-operation trace oracle",
+      "Real MmioTransport/SomeTransport over a register-level virtio-mmio reference device (legacy and modern) through safe-mmio's custom-mmio seam: every access is checked for width, alignment, direction, version and ordering; per operation the ordered trace is compared with the specification's prescription; random headers at probe time.",
+      "Register table transcribed from VirtIO 1.2 4.2.2/4.2.4; sampling of operation sequences and arguments.", "6/C10")
+claim("C14", "exploration", SIM + "; reference block device with sparse disk, out-of-order completion, per-request status faults",
+      "VirtIOBlk over model/MMIO/PCI transports against a reference block device that checks the shape of every request; blocking and non-blocking API with several requests outstanding completed in scheduler-chosen order; status mapping, data integrity, capacity/RO/FLUSH negotiation.",
+      "Blocking calls only with nothing else outstanding; sampling of histories.", "6/C14")
+
 TODO_REASON = "check not built yet in this round (planned, see DESIGN.md section 11); no claim is made"
 ALL = ["C%02d" % i for i in range(1, 21)]
 
